@@ -531,6 +531,8 @@ class Evaluator:
                 return Tm("tuple", (Tm("call", ("<index>", src)), self.item_of(t.a[1], depth + 1)))
             if isit and m == "map" and len(t.a) == 3:
                 return self.apply(t.a[2], [self.item_of(t.a[1], depth + 1)], depth + 1)
+            if isit and m in ("filter_map", "map_while") and len(t.a) == 3:
+                return self.mkproj(self.apply(t.a[2], [self.item_of(t.a[1], depth + 1)], depth + 1), "Option::Some.0")
             if isit and m in self.ITER_PASS:
                 return self.item_of(t.a[1], depth + 1)
             if isit and m == "zip" and len(t.a) == 3:
@@ -539,9 +541,18 @@ class Evaluator:
                 return phi([self.item_of(t.a[1], depth + 1), self.item_of(t.a[2], depth + 1)])
             if m in ("iter", "into_iter", "iter_mut") and len(t.a) == 2:
                 return self.item_of(t.a[1], depth + 1)
+            if isit and m == "collect" and len(t.a) == 2:
+                return self.item_of(t.a[1], depth + 1)
         els = elements_of(t)
         if els:
             return phi(els)
+        if els is None and isinstance(t, Tm) and depth < 12 and t.k in ("match", "if", "phi"):
+            # a join of differently built collections: the items of each alternative (an empty vector literal or the
+            # loop-carried previous value contributes none of its own)
+            alts = [b for _, _, b in t.a[1]] if t.k == "match" else list(t.a[1:]) if t.k == "if" else list(t.a)
+            alts = [x for x in alts if elements_of(x) != []]
+            if alts:
+                return phi([self.item_of(x, depth + 1) for x in alts])
         return Tm("call", ("<item>", t))
 
     HOF_ITEM = ("map", "filter", "flat_map", "filter_map", "for_each", "any", "all", "find", "position", "skip_while",
